@@ -226,12 +226,21 @@ func (c *LocalActionsCache) FindMetadata(spec string) (*ActionMetadata, bool, er
 		return m, true, nil
 	}
 
+	// Keep the lock until the cache is written. Otherwise multiple goroutines can miss the cache for
+	// the same action at the same time and all of them report the same errors of the action.
+	c.mu.Lock()
+	defer c.mu.Unlock()
+	if m, ok := c.cache[spec]; ok {
+		c.debug("Cache hit for %s: %v", spec, m)
+		return m, true, nil
+	}
+
 	dir := filepath.Join(c.proj.RootDir(), filepath.FromSlash(spec))
 	b, f, ok := c.readLocalActionMetadataFile(dir)
 	if !ok {
 		c.debug("No action metadata found in %s", dir)
 		// Remember action was not found
-		c.writeCache(spec, nil)
+		c.cache[spec] = nil
 		// Do not complain about the action does not exist (#25, #40).
 		// It seems a common pattern that the local action does not exist in the repository
 		// (e.g. Git submodule) and it is cloned at running workflow (due to a private repository).
@@ -240,7 +249,7 @@ func (c *LocalActionsCache) FindMetadata(spec string) (*ActionMetadata, bool, er
 
 	var meta ActionMetadata
 	if err := yaml.Unmarshal(b, &meta); err != nil {
-		c.writeCache(spec, nil) // Remember action was invalid
+		c.cache[spec] = nil // Remember action was invalid
 		msg := strings.ReplaceAll(err.Error(), "\n", " ")
 		return nil, false, fmt.Errorf("could not parse action metadata in %q: %s", dir, msg)
 	}
@@ -248,7 +257,7 @@ func (c *LocalActionsCache) FindMetadata(spec string) (*ActionMetadata, bool, er
 	meta.dir = dir
 
 	c.debug("New metadata parsed from action %s: %v", dir, &meta)
-	c.writeCache(spec, &meta)
+	c.cache[spec] = &meta
 	return &meta, false, nil
 }
 
